@@ -1,4 +1,5 @@
 import TracklibVerif.Model.Features
+import TracklibVerif.Model.FeaturesWorld
 import TracklibVerif.Model.Expr
 import TracklibVerif.Drv.Util
 /-! Driver handler for C01 (feature table). Commands:
@@ -7,6 +8,16 @@ import TracklibVerif.Drv.Util
   arun  <xs> <ys> <zs> <ts> <op> <op> …                 the specification (`ATab`: name ↦ column), fresh track
   runi  <xs> <ys> <zs> <ts> <names> <cols> <op> …       the same on a track that already carries a table
   aruni <xs> <ys> <zs> <ts> <names> <cols> <op> …       (names `,`-separated, columns `;`-separated, `_` = none)
+
+  world <step> <step> …                                  several tracks on one heap of Obs objects (`Model/FeaturesWorld.lean`):
+        new:XS:YS:ZS:TS         a new track of new observations (tracks are numbered 0, 1, … in order of creation)
+        on:K                    the following steps are addressed to track K (no reply block)
+        d:copy | d:extract:I:J | d:slice:I:J | d:span:I:J | d:loop | d:addcopy:I:POS | d:plus:K2
+                                a track made from the track in focus (POS empty = addObs); `loop` / `addcopy` change the track
+                                itself, the others make a new last track
+        <op>                    an API call on the track in focus
+    reply: one group per step (`on` excepted), groups separated by a space; a group = the blocks of ALL tracks, in order,
+    separated by `^`, each carrying the outcome / returned value of the step
 
 Floats are IEEE bit patterns / `nan`. A NAME made of `[A-Za-z0-9#]+` is written as it is, any other name
 (empty, blanks, operator or protocol characters, non-ASCII) as `|` followed by the hexadecimal UTF-8 bytes.
@@ -254,7 +265,55 @@ def runFrom (cmd : String) (xs ys zs ts : List Float) (cols : List (String × Li
     joinWith " " ((trace fops ops t).map fun r => showATab r.1 r.2)
   else "bad-request"
 
+def showSys (r : Except Err (Ret Float)) (s : Sys Float) : String :=
+  "^".intercalate ((List.range s.trks.length).map fun k =>
+    match s.focus k with
+    | some w => showSt r (view w)
+    | none => "?")
+
+def derive? (f : List String) : Option Derive :=
+  match f with
+  | ["copy"] => some .copy
+  | ["extract", i, j] => do some (.extract (← i.toNat?) (← j.toNat?))
+  | ["slice", i, j] => do some (.slice (← i.toNat?) (← j.toNat?))
+  | ["span", i, j] => do some (.span (← i.toNat?) (← j.toNat?))
+  | ["loop"] => some .loopAdd
+  | ["addcopy", i, pos] => do some (.addCopy (← i.toNat?) (← (if pos.isEmpty then some none else pos.toNat?.map some)))
+  | ["plus", k] => do some (.plus (← k.toNat?))
+  | _ => none
+
+/-- one step of a `world` session: the system, the track in focus and the reply groups so far (in reverse) -/
+def worldStep (acc : Sys Float × Nat × List String) (tok : String) : Option (Sys Float × Nat × List String) :=
+  let (s, cur, out) := acc
+  match tok.splitOn ":" with
+  | ["new", xs, ys, zs, ts] => do
+    let xs ← floatList? xs
+    let ys ← floatList? ys
+    let zs ← floatList? zs
+    let ts ← floatList? ts
+    if ys.length != xs.length || zs.length != xs.length || ts.length != xs.length then none
+    else
+      let s' := s.newTrack xs ys zs ts
+      some (s', cur, showSys (.ok .none) s' :: out)
+  | ["on", k] => do
+    let k ← k.toNat?
+    if k < s.trks.length then some (s, k, out) else none
+  | "d" :: f => do
+    let d ← derive? f
+    match s.derive fops d cur with
+    | .ok (s', _) => some (s', cur, showSys (.ok .none) s' :: out)
+    | .error e => some (s, cur, showSys (.error e) s :: out)
+  | _ => do
+    let op ← op? tok
+    let (r, s') ← s.api fops cur op
+    some (s', cur, showSys r s' :: out)
+
 def handle (cmd : String) (args : List String) : String :=
+  if cmd == "world" then
+    match args.foldlM worldStep (({ heap := [], trks := [] } : Sys Float), 0, []) with
+    | some (_, _, out) => joinWith " " out.reverse
+    | none => "bad-request"
+  else
   if cmd == "run" || cmd == "arun" then
     match args with
     | xs :: ys :: zs :: ts :: ops =>
